@@ -152,7 +152,13 @@ pub const ZF_NEAR_EDGE: u64 = 2; // the front position is within 12 of 0 or of N
 pub const ZF_WRAPPED: u64 = 4; // as_slices reported two non-empty slices at some point
 pub const ZF_DOC_PANIC: u64 = 8;
 
+thread_local! {
+    /// as_slices() split lengths observed after every step of the last case (capacity-independence check)
+    pub static SPLITS: std::cell::RefCell<Vec<(usize, usize)>> = const { std::cell::RefCell::new(Vec::new()) };
+}
+
 pub fn run_zcase(c: &ZCase) -> Result<u64, String> {
+    SPLITS.with(|s| s.borrow_mut().clear());
     let ci = c.cap_index as usize % CAPS.len();
     let n = CAPS[ci];
     Unit::reset();
@@ -226,6 +232,7 @@ pub fn run_zcase(c: &ZCase) -> Result<u64, String> {
         if !s1.is_empty() && !s2.is_empty() {
             *flags |= ZF_WRAPPED;
         }
+        SPLITS.with(|s| s.borrow_mut().push((s1.len(), s2.len())));
         if b.iter().len() != len || b.iter().count() != len {
             return Err(format!("iter() yields {} / len {} for len {len}", b.iter().count(), b.iter().len()));
         }
@@ -551,6 +558,33 @@ pub fn run_zcase(c: &ZCase) -> Result<u64, String> {
     Ok(flags)
 }
 
+/// Runs a case at a huge capacity and, in addition, the same case at the reference capacity 65537
+/// (no arithmetic near the machine-word limit): as long as the buffer is nowhere near full, where the
+/// contents wrap around the array end is a function of the history and of the distance of the front
+/// from the array end only, so the as_slices() split lengths must be the same at both capacities.
+pub fn run_zcase_with_reference(c: &ZCase) -> Result<u64, String> {
+    let flags = run_zcase(c)?;
+    let ci = c.cap_index as usize % CAPS.len();
+    if ci >= 8 {
+        return Ok(flags);
+    }
+    // index classes that name the capacity itself resolve differently on purpose; they only occur in
+    // out-of-range positions, so the observable behaviour is the same
+    let mine: Vec<(usize, usize)> = SPLITS.with(|s| s.borrow().clone());
+    let mut r = c.clone();
+    r.cap_index = 8;
+    run_zcase(&r).map_err(|e| format!("(reference capacity 65537) {e}"))?;
+    let reference: Vec<(usize, usize)> = SPLITS.with(|s| s.borrow().clone());
+    if mine != reference {
+        let k = mine.iter().zip(reference.iter()).position(|(a, b)| a != b).unwrap_or(mine.len().min(reference.len()));
+        return Err(format!(
+            "as_slices() splits the contents differently than at capacity 65537 after the same history (observation #{k}: {:?} here, {:?} at the reference capacity): the front position arithmetic is capacity dependent",
+            mine.get(k), reference.get(k)
+        ));
+    }
+    Ok(flags)
+}
+
 pub fn all_ops() -> Vec<ZOp> {
     let mut ops = vec![
         ZOp::PushBack,
@@ -701,7 +735,7 @@ pub fn run_zst(seed: u64, threads: usize, prop_cases: u32, max_ops: usize) -> (Z
                         // single step, followed by a short fixed tail that exercises the state
                         let c = ZCase { cap_index: ci as u8, boxed: k % 2 == 0, setup, ops: vec![op.clone(), ZOp::PushFront, ZOp::Views, ZOp::PopBack, ZOp::PushBack] };
                         crate::watch::tick();
-                        match run_zcase(&c) {
+                        match run_zcase_with_reference(&c) {
                             Ok(f) => st.note(&c, f),
                             Err(m) => {
                                 fail_at.fetch_min(u, AO::SeqCst);
@@ -735,7 +769,7 @@ pub fn run_zst(seed: u64, threads: usize, prop_cases: u32, max_ops: usize) -> (Z
                 let mut runner = TestRunner::new_with_rng(cfg, TestRng::from_seed(RngAlgorithm::ChaCha, &sb));
                 let st = std::cell::RefCell::new(ZStats::default());
                 let failed = std::cell::Cell::new(false);
-                let res = runner.run(&zcase_strategy(max_ops), |c| match run_zcase(&c) {
+                let res = runner.run(&zcase_strategy(max_ops), |c| match run_zcase_with_reference(&c) {
                     Ok(f) => {
                         if !failed.get() {
                             st.borrow_mut().note(&c, f);
